@@ -240,9 +240,16 @@ def check_hkl(case, rec=None):
     outs = []
     for k, o in enumerate(ops):
         start = o @ H
-        ok, r = guard(sym_u.find_uniq_hkls, start.copy(), grp)
+        # integer indices as int64, int32 or as the float64 array that UBI.g gives after rounding
+        arg = [start.copy(), start.astype(np.int32), start.astype(np.float64)][(k + len(case["hkl"])) % 3]
+        keep = arg.copy()
+        ok, r = guard(sym_u.find_uniq_hkls, arg, grp)
         if not ok:
             return [exc_failure("find_uniq_hkls", r)]
+        if not np.array_equal(arg, keep):
+            fails.append(fail("inputs", "find_uniq_hkls(%s) wrote into the %s array it was given" % (name, arg.dtype),
+                              group=name))
+            break
         r = np.asarray(r)
         outs.append(r)
         if r.shape != H.shape or not np.array_equal(r, exp):
